@@ -106,6 +106,9 @@ def run(ctx, rep):
             found = True
     rep.check(found, "T3", "C07|T3|check_methods-closure->check_method", cfg.where(facts.fn("validation::check_methods")),
               "the per-method closure of check_methods calls check_method on every path (before any early return)")
+    rep.rule("T5", "nothing post-processes the diagnostics between the checks and the result: every call on a Vec<Diagnostic> reachable from validation is push / sort (no dedup, retain, truncate), so 'exactly one Error per broken rule' survives to the caller")
+    import c03
+    c03.append_only_rule(ctx, rep, "C07")
     rep.not_decided.append("that source types land in the right category (C05)")
     rep.assumptions += ["TB-1 rustc MIR", "TB-4 the tabulator (validated by selftest mutants)",
                         "per-argument loop carries no state between iterations other than the append-only diagnostics vector (checked: only effects are pushes)"]
